@@ -47,6 +47,7 @@ Isrs == 1..Len(cfg.isr)
 Range(s) == {s[i] : i \in 1..Len(s)}
 Without(s, f) == SelectSeq(s, LAMBDA x : x # f)
 Q0(depth) == [nf |-> depth, sp |-> 0, fl |-> {}, rp |-> 0, val |-> [i \in 0..(depth-1) |-> 0], depth |-> depth]
+QAt(depth, st) == [Q0(depth) EXCEPT !.sp = st, !.rp = st]     \* an empty queue whose cursors stand at slot st (a queue with a history)
 NextIdx(q, i) == IF i >= q.depth - 1 THEN 0 ELSE i + 1
 Signed8(v) == IF v >= 128 THEN v - 256 ELSE v
 
@@ -97,9 +98,9 @@ M0(g) == [pc |-> "x", site |-> "pass", k |-> 1, now |-> 0, slot |-> 0, runq |-> 
        current |-> 0, kstate |-> "yielded", last |-> <<0, 0>>, passes |-> 0, ndisp |-> 0]
 
 Start(g) ==
-  [m |-> PassStart(g, M0(g)), aq |-> Q0(AQDepth), eq |-> Q0(g.eqd),
+  [m |-> PassStart(g, M0(g)), aq |-> QAt(AQDepth, g.aqstart), eq |-> QAt(g.eqd, g.eqstart),
    isr |-> [i \in 1..Len(g.isr) |-> [pc |-> IF g.isr[i].k = "run" THEN "RDec" ELSE "EDec", sp |-> 0, slot |-> -1]]]
-Cfg0 == [main |-> MainProg, isr |-> IsrProg, eqd |-> EQDepth, period |-> SPeriod, sleeper |-> Sleeper]
+Cfg0 == [main |-> MainProg, isr |-> IsrProg, eqd |-> EQDepth, period |-> SPeriod, sleeper |-> Sleeper, eqstart |-> 0, aqstart |-> 0]
 Init ==
   /\ cfg = Cfg0
   /\ m = Start(Cfg0).m /\ aq = Start(Cfg0).aq /\ eq = Start(Cfg0).eq /\ isr = Start(Cfg0).isr
